@@ -631,6 +631,16 @@ func (w *srelayWorld) byzantineControl(endpoints []int) {
 			msg.ResponderRelayIndex = r.RemoteIndex
 			break
 		}
+	} else if tp.Chance(1, 2) {
+		// an index of the RECEIVER's relay table, whoever owns it (relay indexes travel in clear on the wire):
+		// a response naming somebody else's record must not complete it
+		R.f.hostMap.RLock()
+		keys := sortedU32(R.f.hostMap.Relays)
+		R.f.hostMap.RUnlock()
+		if len(keys) > 0 {
+			msg.InitiatorRelayIndex = keys[tp.Choose(len(keys))]
+			w.stats["fault.byzantine.foreign-relay-index-in-control"]++
+		}
 	}
 	from, to := pickAddr(), pickAddr()
 	if tp.Chance(1, 3) && from.Is4() && to.Is4() {
@@ -670,7 +680,13 @@ func (w *srelayWorld) toggleAmRelay() {
 	spec := *nd.spec
 	spec.extra = map[string]any{}
 	deepMerge(spec.extra, nd.spec.extra)
-	deepMerge(spec.extra, map[string]any{"relay": map[string]any{"am_relay": on}})
+	var val any = on
+	if !on && w.tp.Chance(1, 2) {
+		// switched off by removing the key (the documented default is false), not by writing false
+		val = nil
+		w.stats["op.am_relay_key_removed"]++
+	}
+	deepMerge(spec.extra, map[string]any{"relay": map[string]any{"am_relay": val}})
 	if err := nd.reload(spec.configYAML()); err != nil {
 		w.rc.HarnessError("reload am_relay: %v", err)
 		return
